@@ -42,6 +42,20 @@ class Q {
   }
 #else
   explicit Q(int i) : v_(i) {}
+  // The documented pathway is static_cast<T>(int). A type with only that constructor ALSO accepts every other built-in
+  // arithmetic argument (through the implicit conversion to int), so offering the overloads below does not change
+  // what compiles. They differ in one respect only: an integer that does not fit an int keeps its VALUE instead of
+  // being reduced modulo 2^32 on the way - so a scalar that wrapped in an unsigned type (e.g. a negated unsigned
+  // factor, 4294967294 instead of -2) is not folded back to the intended value by accident of the conversion, and
+  // the exact checks see what every wider scalar type (double, multiprecision floats) would see. Floating arguments
+  // truncate toward zero exactly as the conversion to int would.
+  explicit Q(unsigned i) : v_(i) {}
+  explicit Q(long i) : v_(i) {}
+  explicit Q(unsigned long i) : v_(i) {}
+  explicit Q(long long i) : v_(static_cast<long>(i)) {}
+  explicit Q(unsigned long long i) : v_(static_cast<unsigned long>(i)) {}
+  template <class F, std::enable_if_t<std::is_floating_point<F>::value, bool> = true>
+  explicit Q(F f) : v_(static_cast<long>(f)) {}
 #endif
   Q(const Q &) = default;
   Q &operator=(const Q &) = default;
